@@ -52,7 +52,7 @@ def generate(rng, tier) -> dict:
             kind = rng.choice(["dm", "period"])
             ops.insert(j, {"k": "side_" + kind, "v": rng.choice([fold_dm, fold_dm, fold_dm + 1.0] if kind == "dm" else [fold_p, fold_p, ps[1]])})
     return {"nints": nints, "nbands": nbands, "nbins": nbins, "nchans_per_band": rng.choice([1, 2, 4]),
-            "layout": rng.choice(["C", "C", "C", "T", "F", "slice"]), "header_dm": rng.choice([0.0, 0.0, 35.0, fold_dm]), "nsamples": 3600000 if long_obs else 100000,
+            "layout": rng.choice(["C", "C", "C", "T", "F", "slice", "C", "readonly"]), "header_dm": rng.choice([0.0, 0.0, 35.0, fold_dm]), "nsamples": 3600000 if long_obs else 100000,
             "fold_dm": fold_dm, "fold_period": fold_p, "ops": ops}
 
 
@@ -92,6 +92,8 @@ def make_cube(sc, ctx, layout="C"):
         arr = data.copy()
     if np.shares_memory(arr, pristine):
         arr = arr.copy()
+    if layout == "readonly":  # a cube wrapped around memory the caller may not write (np.load(mmap_mode="r"), frombuffer)
+        arr.flags.writeable = False
     return FoldedData(arr, hdr, sc["fold_period"], sc["fold_dm"], 0), pristine
 
 
@@ -190,6 +192,12 @@ def execute(sc, ctx) -> None:
                 cube.update_period(op["v"])
                 twin.update_period(op["v"])
         except Exception as e:  # noqa: BLE001
+            if layout == "readonly" and isinstance(e, ValueError) and "read-only" in str(e):
+                # refusing to re-tune a cube that cannot be written is an answer; the refusal must leave it as it was
+                ctx.probe("read-only-cube-refused")
+                if not np.array_equal(before, np.asarray(cube.data)) or cube.dm != cur["dm"] or cube.period != cur["period"]:
+                    raise mk("refused-update-changed-the-cube", f"dm={cube.dm} period={cube.period}, before the refused call {cur}") from None
+                continue
             raise mk("raised", repr(e)) from None
         if not np.array_equal(np.asarray(cube.data), np.asarray(twin.data)):
             raise mk("memory-layout-dependent", f"a cube held as a {layout!r} view differs from a C-contiguous cube with the same values after the same history")
